@@ -414,6 +414,9 @@ def into_data(val: Convertible, ty: t.Optional[IntoConverter] = None, *,
             # `conv` has no serializer of its own (e.g. `Any`, `None`, `Literal`): the default
             # implementation serializes by the runtime type of `val`. Do that here, unless
             # `ty` already is the runtime type (which would recurse forever).
+            if ty is type(val) and type(val) in _ScalarType:
+                # a scalar data interchange type (whose custom converter brings no serializer): data already
+                return val
             assert ty is not type(val)
             return into_data(val, None, custom=custom)
     except (TypeError, AssertionError):
